@@ -81,6 +81,11 @@ def tasks(tier):
                    sleeper="call", sleeper_async=True, before_sleep="call", bs_async=bs,
                    max_unknown=None)
         out.append({"family": "await-points", "cfg": cfg, "entry": e, "bound": nf, "weight": 3})
+        if bs:
+            # a coroutine is not pinned to an OS thread: admission happens on one thread, the
+            # rest of the call (including its cancellation) on another
+            out.append({"family": "await-points-thread-hop", "cfg": dict(cfg, thread_hop=True),
+                        "entry": e, "bound": nf, "weight": 3})
     for init, e in itertools.product(BRK, WITH_RETRY + NO_RETRY + ["PolicySet.call", "AsyncPolicySet.execute"]):
         cfg = dict(M=2, alphabet=ENDINGS0 if e.split(".")[0].endswith("0") else ENDINGS,
                    breaker=BRK[init], max_unknown=None, repoint=True)
